@@ -3,7 +3,7 @@ volume; creates it 0700 without prompting; never a silent cross-device copy."""
 import itertools
 import os
 
-from .. import gen, putcheck, run, snap, spec, trashio, world
+from .. import gen, putcheck, run, sched, snap, spec, trashio, world
 from . import c01
 
 ID = 'C07'
@@ -35,7 +35,108 @@ def config(tier):
     }
 
 
+def gen_race_case(rng, index, tier):
+    """two trash-put processes started together on a volume whose trash dir
+    may not exist yet: each must still end in the prescribed directory"""
+    L = gen.make_layout(rng, home_set=True)
+    workdirs = c01.setup_workdirs(L, rng)
+    v = rng.choice(list(L.mounts))
+    args = []
+    used = set()
+    for i in range(2):
+        a = c01.add_entry(L, rng, workdirs, i, 'c%dr%d' % (index, i), used,
+                          kinds=['file', 'tree', 'link_dangling'],
+                          spellings=['rel', 'abs'], vol=v, deep=False,
+                          name=rng.choice(['foo', 'a b', 'x.txt']) + str(i))
+        args.append(a)
+    case = L.desc()
+    case['kind'] = 'race'
+    case['args'] = args
+    case['opts'] = []
+    case['optclass'] = 'none'
+    case['states'] = {'top': L.top_state, 'alt': L.alt_state}
+    case['seed'] = rng.getrandbits(30)
+    case['max_sched'] = 50 if tier == 'quick' else 300
+    return case
+
+
+def run_race(case):
+    import random
+    out = {'violations': [], 'obs': {}, 'features': ['race']}
+    obs = out['obs']
+    rng = random.Random(case['seed'])
+    ex = sched.Explorer(2)
+    seen = set()
+    n = 0
+    while n < case['max_sched'] and not out['violations']:
+        # alternate: bounded-preemption enumeration from the start of the
+        # runs, and random / priority schedules
+        use_ex = (n % 2 == 0) and not ex.finished
+        if use_ex:
+            pol = ex
+            ex.start_run()
+        elif n % 3 == 1:
+            pol = sched.PCTPolicy(rng, 2, depth=rng.choice([1, 2, 3]), est_len=60)
+        else:
+            pol = sched.RandomPolicy(rng, rng.choice([0.2, 0.5, 0.8]))
+        with world.World(case) as w:
+            env = w.env()
+            exps = []
+            for a in case['args']:
+                exp, fvol = spec.expected_trash_dirs(
+                    w.abs(a['rel']), env, w.uid, w.mounts, trash_dir_opt=None,
+                    fallback=False)
+                exps.append(exp)
+            s0 = w.snapshot()
+            actors = [{'args': ['--', world.subst(a['spelling'], w.R)],
+                       'cwd': w.cwd(),
+                       'plan': {'random_seed': case['seed'] + i}}
+                      for i, a in enumerate(case['args'])]
+            results, trace, err = sched.run_schedule(w, actors, w.R, pol.choose)
+            s1 = w.snapshot()
+            n += 1
+            obs['race_schedules'] = obs.get('race_schedules', 0) + 1
+            if err or any(r.timeout for r in results):
+                out['verdict'] = 'inconclusive'
+                out['why'] = err or 'watchdog'
+                return out
+            key = tuple(x for x, _ in trace)
+            if key not in seen:
+                seen.add(key)
+                obs['race_interleavings'] = obs.get('race_interleavings', 0) + 1
+            A = putcheck.analyze(s0, s1, [a['rel'] for a in case['args']])
+            for i, (a, o, exp) in enumerate(zip(case['args'], A.outcomes, exps)):
+                bad = None
+                if exp:
+                    obs['race_expected_some'] = obs.get('race_expected_some', 0) + 1
+                    if o['state'] != 'TRASHED' or results[i].exit != 0:
+                        bad = 'race:not-trashed-though-usable-dir-exists:%s' % o['state']
+                    elif os.path.realpath(w.abs(o['trash'])) != os.path.realpath(exp[0]):
+                        bad = 'race:wrong-trash-dir'
+                    else:
+                        obs['race_right_dir'] = obs.get('race_right_dir', 0) + 1
+                elif o['state'] != 'UNTOUCHED':
+                    bad = 'race:trashed-though-no-dir-allowed'
+                if bad:
+                    out['violations'].append({
+                        'mechanism': bad,
+                        'detail': {'arg': a['spelling'], 'outcome': o,
+                                   'expected': exp, 'states': case['states'],
+                                   'trace': ['%d:%s' % t for t in trace][:80],
+                                   'exits': [r.exit for r in results],
+                                   'stderr': [r.errtext()[-300:] for r in results]}})
+                    break
+        if use_ex:
+            ex.next()
+    out['nontrivial'] = True
+    out['sample_obs'] = {'schedules': n, 'distinct': len(seen)}
+    out['verdict'] = 'violation' if out['violations'] else 'ok'
+    return out
+
+
 def gen_case(rng, index, tier):
+    if index % 200 == 5:
+        return gen_race_case(rng, index, tier)
     home_set = rng.random() > 0.06
     L = gen.make_layout(rng, home_set=home_set)
     workdirs = c01.setup_workdirs(L, rng)
@@ -90,6 +191,8 @@ def gen_case(rng, index, tier):
 
 
 def run_case(case):
+    if case.get('kind') == 'race':
+        return run_race(case)
     out = {'violations': [], 'obs': {}, 'features': []}
     obs = out['obs']
     with world.World(case) as w:
